@@ -26,7 +26,7 @@ GiRange(len) == IF len.ok THEN Range(0 - (len.n + 2), len.n + 1) ELSE Range(0 - 
 ObsRefused(c) ==
   [build |-> c, idx |-> "-", ord |-> "-", len |-> ErrN("-"),
    it1 |-> ItR(<<>>, "-"), it2 |-> ItR(<<>>, "-"), itk |-> ItR(<<>>, "-"),
-   keys |-> ErrK("-"), gi |-> <<>>, gs |-> <<>>, ginsame |-> TRUE]
+   keys |-> ErrK("-"), gi |-> <<>>, gs |-> <<>>, ginsame |-> TRUE, len2 |-> ErrN("-")]
 
 ModelObsOf(t) ==
   LET len == LenO(t)
@@ -40,7 +40,7 @@ ModelObsOf(t) ==
       gs |-> [j \in 1..Len(Probe) |->
                 LET r == Gs(t, Probe[j])
                 IN [k |-> Probe[j], r |-> r, le |-> IsLookupErr(r.exc)]],
-      ginsame |-> TRUE]
+      ginsame |-> TRUE, len2 |-> len]
 
 ModelObs(a) == LET b == Build(a) IN IF b.ok THEN ModelObsOf(b.obj) ELSE ObsRefused(b.exc)
 
@@ -97,6 +97,9 @@ V_C01(a, o, m) ==
     ELSE VViol("supported-iteration-refused")
   ELSE IF ~SameIter(o.it1, Deliver(r)) THEN VViol("iteration-differs-from-reference")
   ELSE IF o.it2 # o.it1 THEN VViol("second-iteration-differs")
+  \* "iteration never consumes or alters a dataset": len() answers the same
+  \* before and after everything else was done with the object
+  ELSE IF o.len2.ok # o.len.ok \/ o.len2.n # o.len.n THEN VViol("len-changes-after-iteration")
   ELSE VOk
 
 (***************************************************************************)
@@ -158,6 +161,10 @@ V_C03(a, o) ==
     IN
     IF r.kcap = "keys" /\ ~o.keys.ok THEN VViol("keys-refused")
     ELSE IF r.kcap = "keys" /\ o.keys.ks # kr THEN VViol("keys-not-aligned")
+    \* whenever keys() answers at all, it lists the keys of the examples that
+    \* iteration yields, in that order
+    ELSE IF o.keys.ok /\ r.kcap # "keys" /\ o.it1.exc = "none" /\ o.keys.ks # kr
+      THEN VViol("keys-returned-but-not-aligned")
     ELSE IF r.kcap = "keys" /\ Refusal(o.itk) THEN VViol("items-refused")
     ELSE IF ~Refusal(o.itk) /\ ~SameIter(o.itk, exp) THEN VViol("items-not-aligned")
     ELSE IF \E j \in 1..Len(o.gs) : LookupBad(o.gs[j]) THEN VViol("key-lookup")
